@@ -2,3 +2,4 @@ import BadsModel.Num
 import BadsModel.Mesh
 import BadsModel.Filter
 import BadsModel.Controller
+import BadsModel.Logger
